@@ -82,6 +82,11 @@ func Load(o LoadOpts) (*Prog, error) {
 		sort.Strings(errs)
 		return nil, fmt.Errorf("load: type errors in the repository: %s", strings.Join(errs, "; "))
 	}
+	for path, pk := range p.Pkgs {
+		if strings.HasPrefix(path, Mod) {
+			normalize(pk)
+		}
+	}
 	for _, need := range []string{PkgGts, PkgSeqio, PkgCache, PkgMain} {
 		pk := p.Pkgs[need]
 		if pk == nil || pk.Types == nil || len(pk.Syntax) == 0 {
